@@ -171,9 +171,27 @@ def check_fw(prop, tier, seed, plan, verdict_names):
         log("[%s] MC %s/%s calls=%d batch=%d: %d states, %d distinct, depth %d, %.1fs%s" % (
             prop, c["family"], c["alphabet"], c["calls"], c["batch"], r["states"], r["distinct"],
             r["depth"], r["wall"], " VIOLATED " + r["violated"] if r["violated"] else ""))
-        if r["error"] or r["violated"] or r["distinct"] == 0:
-            raise ToolError("model checking of the specification failed (%s): see %s" % (
-                r["violated"] or r["error"], r["out"]))
+        if r["error"] or r["distinct"] == 0:
+            raise ToolError("model checking of the specification failed (%s): see %s" % (r["error"], r["out"]))
+        if r["violated"]:
+            # the specification of the current code violates an invariant: decide on the real code.
+            # Every behaviour of this configuration is replayed and ALL recorded traces are validated;
+            # a verdict on a real trace is a violation, no verdict means the model is wrong (tool error).
+            log("[%s]   the model violates %s: replaying the configuration on the real code" % (prop, r["violated"]))
+            g = run_gen(wd, "mcgen%d" % i, c, workers=workers, timeout=c.get("timeout", 1500))
+            rd = os.path.join(wd, "mcrep%d" % i)
+            pr = vlib.run_bin("fw_replay", [g["beh"], rd, "--all"])
+            if pr.returncode != 0:
+                raise ToolError("fw_replay failed: %s" % pr.stdout[-2000:])
+            alltr = os.path.join(rd, "sample.ndjson")
+            tv = vlib.trace_validate("FrameworkTrace", tv_cfg(), alltr, wd, "mctv%d" % i)
+            hit = sorted({v["id"] for v in tv["verdicts"] if v["name"] in verdict_names})
+            if not hit:
+                raise ToolError("the model violates %s but no real execution does: modelling error, see %s" % (
+                    r["violated"], r["out"]))
+            res.violations.append(dict(source="mc%d %s" % (i, r["violated"]), id=hit[0],
+                                       names=sorted({v["name"] for v in tv["verdicts"] if v["id"] == hit[0]}),
+                                       actual=scenario_lines(alltr, hit[0])))
         res.states += r["distinct"]
         res.transitions += r["states"]
         res.mc_runs.append(dict(family=c["family"], alphabet=c["alphabet"], calls=c["calls"],
